@@ -23,13 +23,17 @@ Oracle (predictive; the driver knows what it did):
                   '_ext_' prepended unless present;
   not running  -> EdzedInvalidState and no block received anything;
   a stop that happens inside the simulation task (a CBlock function that raises, a block
-  whose init_regular raises) is caused by scripted user code, which tells the model at the
-  very moment it raises; send() calls are then made from callbacks queued at that moment
+  whose init_regular raises - run by the simulator or forced early by an external event) or
+  inside a block's own monitored task (AddonMainTask service task, ValuePoll function) is
+  caused by scripted user code, which tells the model at the very moment it raises; send() calls are then made from callbacks queued at that moment
   (0-2 call_soon hops) and from a task resumed right behind the failing step;
   a raw cancel() of an idle (fully initialised) simulation task counts as noticed as soon as
-  the cancelling task has yielded once (FIFO ready queue); only for a raw cancel() during the
-  start-up and for the SIGTERM hand-over (call_soon_threadsafe) both answers are accepted
-  until Circuit.error is set or a block's stop() has been called.
+  the cancelling task has yielded once (FIFO ready queue), a raw cancel() during the start-up
+  as soon as virtual time has passed (the loop was idle in between); only inside that window
+  and for the SIGTERM hand-over (call_soon_threadsafe) both answers are accepted until
+  Circuit.error is set or a block's stop() has been called. A simulation that is still
+  running 60 s after its stop is a violation (stop-never-completed); the harness then forces
+  the end.
   An explicit, documented Circuit.finalize() before the start (per-run option) does not make
   the circuit running.
   Every delivery that is not the top of an ExtEvent.send() is internal: its 'source' must not
@@ -70,6 +74,16 @@ task that does not go through abort() plus a send() queued at that moment / resu
 behind the failing step [delivered-when-not-running/after_failure:*, aborting:calc_error,
 aborting:cancel_task]; s6 (is_ready() derived from the 'finalized' flag) needs the explicit
 finalize() before the start [delivered-when-not-running/no_task, created].
+s7 (Circuit._run_tasks swallows the cancellation of the simulation task during an async
+initialisation: the stop is lost) needs cancel_task in phase async_init, sends after virtual
+time has passed, and a bounded wait for the end [delivered-when-not-running/aborting:
+cancel_task, stop-never-completed/cancel_task]; s8 (a failed monitored block task reports to
+abort() one loop iteration late) needs cause task_error (AddonMainTask service task or
+ValuePoll function that tells the model when it raises) and sends 0 hops later
+[delivered-when-not-running/after_failure:task_error]; s9 (an init routine that raises during a
+forced early initialisation is not fatal) needs cause early_init_error: an external event to a
+not yet initialised block whose init_regular raises, then further sends
+[delivered-when-not-running/aborting:early_init_error].
 Not expressible: "ready as soon as the task object exists" (_simtask is assigned by the task).
 Side observation (not C14): Circuit.wait_init() after abort()-before-start raises
 AttributeError('_init_done') instead of EdzedInvalidState; counted as wait_init_attribute_error.
@@ -96,7 +110,8 @@ RULE = ("one run = one circuit (scripted recorder, validated Input, Counter, FSM
         "clean-up probe) x entry point (run_forever task / edzed.run with a supporting "
         "coroutine) x termination cause (abort, abort before start, shutdown awaited / in a "
         "task, _ctrl shutdown/abort from a block, external event to _ctrl, failing handler, raw "
-        "task cancel, failing CBlock, failed initialisation, SIGTERM, supporting coroutine "
+        "task cancel, failing CBlock, failed initialisation, init routine failing in a forced early "
+        "initialisation, failing block task (AddonMainTask / ValuePoll), SIGTERM, supporting coroutine "
         "returns/raises) x termination phase (first step, async init, running) x 0-3 "
         "ExtEvent.send() calls in each of the phases no-task/created/first-step/async-init/"
         "running/aborting/clean-up (driver, stop(), stop_async())/finished with generated data "
@@ -111,7 +126,8 @@ REACH_EXPECTED = ['phase_no_task', 'phase_created', 'phase_first_step', 'phase_a
                   'phase_init_async_probe', 'phase_running', 'phase_aborting',
                   'phase_cleanup_driver', 'phase_cleanup_stop', 'phase_cleanup_async',
                   'phase_finished', 'phase_after_failure', 'self_stop', 'explicit_finalize',
-                  'cancel_noticed_after_yield', 'lenient_window', 'falsy_value',
+                  'cancel_noticed_after_yield', 'cancel_noticed_after_sleep', 'early_init_error',
+                  'task_error_main', 'task_error_vpoll', 'lenient_window', 'falsy_value',
                   'source_given_prefixed', 'source_given_plain', 'source_odd', 'default_source',
                   'ctor_source', 'internal_user_named', 'internal_auto_named', 'internal_repeat',
                   'internal_timedate', 'internal_generated_class', 'handler_error',
@@ -140,10 +156,12 @@ RESERVED_TRIES = ['_ext_x', '_x', '_ext_', '__', '_ext', '_Input_0']
 
 CAUSES_RF = ['abort', 'shutdown_await', 'shutdown_task', 'ctrl_shutdown', 'ctrl_abort',
              'ext_ctrl_shutdown', 'handler_error', 'cancel_task', 'calc_error', 'init_failure',
-             'abort_before_start']
-CAUSES_RUN = ['sup_return', 'sup_raise', 'sigterm', 'shutdown_await', 'abort', 'ctrl_shutdown']
+             'abort_before_start', 'task_error', 'early_init_error']
+CAUSES_RUN = ['sup_return', 'sup_raise', 'sigterm', 'shutdown_await', 'abort', 'ctrl_shutdown',
+              'task_error']
 EARLY_OK = ('abort', 'shutdown_task', 'cancel_task', 'ctrl_shutdown', 'ctrl_abort',
-            'shutdown_await', 'handler_error')
+            'shutdown_await', 'handler_error', 'task_error', 'early_init_error')
+SELF_STOP = ('calc_error', 'init_failure', 'task_error', 'early_init_error')
 TERM_PHASES = ['first_step', 'async_init', 'running']
 
 
@@ -217,6 +235,8 @@ def gen(rng, tier, index=0):
         tphase = rng.choice(TERM_PHASES + ['running'])
     if cause not in EARLY_OK or entry == 'run' and cause in ('shutdown_await',):
         tphase = 'running'
+    if cause == 'early_init_error' and tphase == 'running':
+        tphase = 'async_init'       # only an uninitialised block gets the forced early init
     if entry == 'run' and cause in ('sup_return', 'sup_raise', 'sigterm'):
         tphase = rng.choice(TERM_PHASES + ['running']) if index >= 1300 else tphase
     async_init = None
@@ -239,8 +259,13 @@ def gen(rng, tier, index=0):
     created = gen_sends(rng, 'created') if entry == 'rf' else []
     body = []
     term = [{'do': 'cause', 'cause': cause}] + gen_sends(rng, 'aborting', 1, 3)
-    if cause in ('cancel_task', 'sigterm', 'calc_error'):
+    if cause in ('cancel_task', 'sigterm', 'calc_error', 'task_error', 'early_init_error'):
         term += [{'do': 'yield'}] + gen_sends(rng, 'aborting', 1, 2)
+    if cause in ('cancel_task', 'task_error'):
+        # virtual time passes: whatever the cancellation / the failing task had to go
+        # through (wait_for, nested tasks, a polling interval) is over afterwards
+        term += [{'do': 'sleep', 't': rng.choice([0.001, 0.01, 0.3])}] \
+            + gen_sends(rng, 'aborting', 1, 2)
     term += [{'do': 'sleep', 't': cleanup['dur'] * 0.5}] + gen_sends(rng, 'cleanup_driver', 1, 2)
     body += gen_sends(rng, 'first_step')
     done = False
@@ -269,11 +294,13 @@ def gen(rng, tier, index=0):
         body += term
     post = gen_sends(rng, 'finished', 1, 3)
     after_failure = []
-    if cause in ('calc_error', 'init_failure'):
+    if cause in SELF_STOP:
         # send() from callbacks queued at the very moment the simulation task fails
         for hops in rng.choice([[0], [0, 1], [0, 0, 2], [1, 0], [2, 1, 0]]):
             after_failure.append({'hops': hops, 'send': gen_send(rng, 'after_failure')})
-    return {'knobs': knobs, 'finalize': rng.random() < 0.3, 'after_failure': after_failure, 'entry': entry, 'cause': cause, 'tphase': tphase,
+    return {'knobs': knobs, 'finalize': rng.random() < 0.3, 'after_failure': after_failure,
+            'task_kind': rng.choice(['main', 'main', 'vpoll']),
+            'failinit_sets_output': rng.random() < 0.4, 'entry': entry, 'cause': cause, 'tphase': tphase,
             'async_init': async_init, 'cleanup': cleanup, 'relay_cls': relay_cls,
             'with_td': with_td, 'with_repeat': with_repeat,
             'reserved': [rng.choice(RESERVED_TRIES) for _ in range(rng.randint(0, 2))],
@@ -364,8 +391,27 @@ class FailInit(edzed.SBlock):
     """A block whose initialisation fails: the simulation stops by itself."""
 
     def init_regular(self):
+        if self.x_set_first:
+            self.set_output('half')     # the output is set, the routine fails nevertheless
         self.x_ctx.failure()
         raise Injected('init failure')
+
+    def _event_put(self, *, value, **_data):
+        self.set_output(value)
+        return 'stored'
+
+
+class TaskProbe(edzed.AddonMainTask, edzed.SBlock):
+    """A block whose own (monitored service) task fails on request."""
+
+    def init_regular(self):
+        self.set_output(0)
+
+    async def _maintask(self):
+        ctx = self.x_ctx
+        await ctx.task_fail.wait()
+        ctx.failure()       # the block's task is failing right now
+        raise Injected('main task failure')
 
 
 def make_boom_func(ctx):
@@ -395,6 +441,7 @@ class Ctx:
         self.stopped = False
         self.lenient = False
         self.deferred_error = None
+        self.task_fail = asyncio.Event()
         self.cause_done = False
         self.in_cleanup = False
         # observation
@@ -645,6 +692,13 @@ class Ctx:
             run.violate(sig, f"{label}: the destination received {canon(got)}, expected "
                              f"{canon(exp_data)}")
         exp_res = self.model_delivery(dest_name, etype, got, spec)
+        if spec.get('raise_init'):
+            run.fired('reach:early_init_error')
+            if outcome != 'raised' or not isinstance(res, Injected):
+                run.violate('C14/init-exception-lost',
+                            f"{label}: the forced early initialisation raised, send() {outcome} "
+                            f"{canon(res)}")
+            return
         if spec.get('raise') and dest_name == 'rec':
             run.fired('reach:handler_error')
             if outcome != 'raised' or not isinstance(res, Injected):
@@ -734,8 +788,19 @@ def build(ctx, plan):
         if plan.get('async_init'):
             InitProbe('iprobe', x_ctx=ctx, x_spec=plan['async_init'])
         CleanProbe('cprobe', x_ctx=ctx, x_spec=plan['cleanup'])
-        if plan['cause'] == 'init_failure':
-            FailInit('failinit', x_ctx=ctx)
+        if plan['cause'] in ('init_failure', 'early_init_error'):
+            blocks['failinit'] = FailInit('failinit', x_ctx=ctx,
+                                          x_set_first=bool(plan.get('failinit_sets_output')))
+        if plan['cause'] == 'task_error':
+            if plan.get('task_kind') == 'vpoll':
+                def poll():
+                    if ctx.task_fail.is_set():
+                        ctx.failure()   # the block's polling task is failing right now
+                        raise Injected('acquisition failure')
+                    return 1
+                edzed.ValuePoll('tprobe', func=poll, interval=0.25)
+            else:
+                TaskProbe('tprobe', x_ctx=ctx)
     except PlanError:
         raise
     except Exception as err:    # pylint: disable=broad-except
@@ -751,8 +816,9 @@ def build(ctx, plan):
         else:
             run.violate('C14/reserved-name-accepted',
                         f"a user block could be created with the reserved name {name!r}")
-    for name in ('rec', 'inp', 'cnt', 'fsm', 'auto', 'relay'):
-        fsmlib.hook_events(blocks[name], ctx.hook)
+    for name in ('rec', 'inp', 'cnt', 'fsm', 'auto', 'relay', 'failinit'):
+        if name in blocks:
+            fsmlib.hook_events(blocks[name], ctx.hook)
     # ExtEvent objects created before the start
     for part in ('pre', 'created', 'body', 'post'):
         for step in plan.get(part, []):
@@ -835,6 +901,7 @@ def execute(plan, trace=False):
                 # cancellation in its very next step, i.e. before a task that yields now
                 # (FIFO ready queue) is resumed
                 state['cancel_strict'] = bool(state.get('init_done'))
+                state['cancel_at'] = run.now()
             elif cause == 'calc_error':
                 # delivered while running; the CBlock fails when the simulator task runs next
                 # (the failing function itself tells the model, see Ctx.failure)
@@ -842,6 +909,19 @@ def execute(plan, trace=False):
                               'value': {'v': 'BOOM'}, 'raw': True, 'extra': {}, 'source': None, 'dsrc': None})
             elif cause == 'init_failure':
                 pass        # happened by itself (FailInit.init_regular tells the model)
+            elif cause == 'early_init_error':
+                # an external event to a block that is not initialised yet forces its
+                # initialisation, which fails: an error in an init routine stops the simulation
+                if 'failinit' not in blocks:
+                    raise PlanError('no failinit block')
+                if blocks['failinit'].init_steps_completed in (0, 1):
+                    ctx.ext_send({'do': 'send', 'phase': 'aborting', 'dest': 'failinit',
+                                  'etype': 'put', 'value': {'v': 'x'}, 'raise_init': True,
+                                  'extra': {}, 'source': None, 'dsrc': None})
+            elif cause == 'task_error':
+                # the block's task wakes up and fails in its next step (Ctx.failure)
+                run.fired('reach:task_error_' + str(plan.get('task_kind', 'main')))
+                ctx.task_fail.set()
             elif cause == 'sigterm':
                 handler = signal.getsignal(signal.SIGTERM)
                 if not callable(handler):
@@ -881,6 +961,13 @@ def execute(plan, trace=False):
                         ctx.stopped = True
                 elif do == 'sleep':
                     await asyncio.sleep(max(0.0, float(step.get('t', 0))))
+                    if 'cancel_at' in state and run.now() > state['cancel_at']:
+                        # the loop went idle in between: the CancelledError has made its way
+                        # through whatever the simulation task was awaiting
+                        del state['cancel_at']
+                        run.fired('reach:cancel_noticed_after_sleep')
+                        ctx.lenient = False
+                        ctx.stopped = True
                     if ctx.lenient and state['simtask'] is not None and state['simtask'].done():
                         ctx.lenient = False
                         ctx.stopped = True
@@ -934,8 +1021,26 @@ def execute(plan, trace=False):
                     # a plan without an effective cause: stop now
                     ctx.stopped = True
                     circuit.abort(asyncio.CancelledError('end of script'))
-                await asyncio.wait([simtask])
-                run.log('simtask', simtask.exception() if not simtask.cancelled() else 'cancelled')
+                # a stop was requested or happened: the simulation must come to an end
+                # (clean-up is bounded by the stop_timeouts, 10 s here)
+                for attempt in range(3):
+                    await asyncio.wait([simtask], timeout=60.0)
+                    if simtask.done():
+                        break
+                    if attempt == 0:
+                        run.violate(f"C14/stop-never-completed/{plan['cause']}",
+                                    f"60 s after the stop ({plan['cause']} in phase "
+                                    f"{plan.get('tphase')}) the simulation task is still "
+                                    f"running, is_ready()={circuit.is_ready()}, "
+                                    f"error={canon(circuit.error)}")
+                        circuit.abort(asyncio.CancelledError('forced end'))
+                    else:
+                        simtask.cancel()
+                if simtask.done():
+                    run.log('simtask',
+                            simtask.exception() if not simtask.cancelled() else 'cancelled')
+                else:
+                    run.log('simtask', 'never ended')
             else:
                 run.fired('reach:entry_run')
 
